@@ -6,10 +6,23 @@
 //                       a*(n-1)+(b-1) of `code` is the edge a->b, b >= 1, so no
 //                       edge enters node 0), restricted to those in which every
 //                       node is reachable from 0       -> `n code = <result>`
+//   dom cfg             [third audit] stdin lines = one Circom definition each,
+//                       lifted by the real `into_cfg`; the graph is read off the
+//                       basic blocks through the `DirectedGraphNode` trait
+//                       (the PRODUCTION node type) and the four tables through
+//                       the `Cfg::get_*` wrappers
+//                                                       -> `n a>b ... = <result>`
+//                       or `<reason>` when no graph was built (no parse, lift
+//                       error, panic)
 //
 // <result> is `dom=..|.. idom=.. ch=..|.. df=..|..` (sets sorted), `panic`, or
-// `timeout` (2 s watchdog per graph: a walk over a cyclic idom relation would
-// not terminate).
+// `timeout` (watchdog per graph: a walk over a cyclic idom relation would not
+// terminate; 2 s up to 40 nodes, 60 s beyond - the quadratic iteration over
+// hash sets of a debug build needs more than a second on a 300-node chain).
+use parser::parse_definition;
+use program_structure::cfg::{BasicBlock, Cfg, IntoCfg};
+use program_structure::constants::Curve;
+use program_structure::report::ReportCollection;
 use program_structure::static_single_assignment::dominator_tree::DominatorTree;
 use program_structure::static_single_assignment::traits::DirectedGraphNode;
 use std::collections::HashSet;
@@ -73,6 +86,81 @@ fn run(g: &[Node]) -> String {
     }
 }
 
+fn sorted(mut v: Vec<usize>) -> String {
+    v.sort();
+    v.iter().map(|x| x.to_string()).collect::<Vec<_>>().join(",")
+}
+
+/// The control-flow graph of one definition as the generic code sees it, and the
+/// tables as the rest of the tool reads them.
+fn cfg_line(src: &str) -> String {
+    let def = match guarded(|| parse_definition(src)) {
+        None => return "parse-panic".to_string(),
+        Some(None) => return "no-parse".to_string(),
+        Some(Some(def)) => def,
+    };
+    let cfg: Cfg = match guarded(move || {
+        let mut reports = ReportCollection::new();
+        def.into_cfg(&Curve::default(), &mut reports)
+    }) {
+        None => return "lift-panic".to_string(),
+        Some(Err(_)) => return "lift-error".to_string(),
+        Some(Ok(cfg)) => cfg,
+    };
+    let blocks: Vec<&BasicBlock> = cfg.iter().collect();
+    let n = blocks.len();
+    let mut by_succ: Vec<(usize, usize)> = Vec::new();
+    let mut by_pred: Vec<(usize, usize)> = Vec::new();
+    let mut positions_ok = true;
+    for (pos, b) in blocks.iter().enumerate() {
+        positions_ok = positions_ok && <BasicBlock as DirectedGraphNode>::index(b) == pos;
+        for &s in <BasicBlock as DirectedGraphNode>::successors(b) {
+            by_succ.push((pos, s));
+        }
+        for &p in <BasicBlock as DirectedGraphNode>::predecessors(b) {
+            by_pred.push((p, pos));
+        }
+    }
+    by_succ.sort();
+    by_pred.sort();
+    let head = format!(
+        "{} {}",
+        n,
+        by_succ.iter().map(|(a, b)| format!("{a}>{b}")).collect::<Vec<_>>().join(" ")
+    );
+    let head = head.trim_end().to_string();
+    if !positions_ok {
+        return format!("{head} = index-is-not-the-position");
+    }
+    if by_succ != by_pred {
+        return format!("{head} = predecessors-do-not-mirror-successors");
+    }
+    if by_succ.iter().any(|&(a, b)| a >= n || b >= n) {
+        return format!("{n} = edge-out-of-range");
+    }
+    let result = guarded(|| {
+        let dom: Vec<String> =
+            blocks.iter().map(|b| sorted(cfg.get_dominators(b).iter().map(|x| x.index()).collect())).collect();
+        let idom: Vec<String> = blocks
+            .iter()
+            .map(|b| match cfg.get_immediate_dominator(b) {
+                Some(j) => j.index().to_string(),
+                None => "-".to_string(),
+            })
+            .collect();
+        let ch: Vec<String> = blocks
+            .iter()
+            .map(|b| sorted(cfg.get_dominator_successors(b).iter().map(|x| x.index()).collect()))
+            .collect();
+        let df: Vec<String> = blocks
+            .iter()
+            .map(|b| sorted(cfg.get_dominance_frontier(b).iter().map(|x| x.index()).collect()))
+            .collect();
+        format!("dom={} idom={} ch={} df={}", dom.join("|"), idom.join(","), ch.join("|"), df.join("|"))
+    });
+    format!("{head} = {}", result.unwrap_or_else(|| "panic".to_string()))
+}
+
 struct Watch {
     timeouts: usize,
 }
@@ -82,11 +170,12 @@ impl Watch {
         if self.timeouts >= 8 {
             return "timeout".to_string(); // do not pile up spinning threads
         }
+        let limit = if g.len() <= 40 { 2 } else { 60 };
         let (tx, rx) = mpsc::channel();
         std::thread::spawn(move || {
             let _ = tx.send(run(&g));
         });
-        match rx.recv_timeout(Duration::from_secs(2)) {
+        match rx.recv_timeout(Duration::from_secs(limit)) {
             Ok(s) => s,
             Err(_) => {
                 self.timeouts += 1;
@@ -152,6 +241,10 @@ fn main() {
         }
         out.flush().unwrap();
         std::process::exit(0); // leaked watchdog threads die here
+    }
+    if args.len() == 2 && args[1] == "cfg" {
+        each_line(|line| cfg_line(line));
+        std::process::exit(0);
     }
     each_line(|line| match parse(line) {
         Some((n, es)) => format!("{} = {}", line, w.run(graph(n, &es))),
